@@ -233,6 +233,40 @@ Section WaveletProofs.
       + apply bdiag_adjoint; [apply IH; assumption|apply idop_adjoint].
       + apply dwt2_adjoint; assumption.
   Qed.
+  (* ---------- three dimensions ---------- *)
+  Lemma band3_adjoint L n1 n2 n3 (fa ga fb gb fc gc : vec) :
+    filters_match L fa ga -> filters_match L fb gb -> filters_match L fc gc -> adjoint_pair (band3_op L n1 n2 n3 fa ga fb gb fc gc).
+  Proof.
+    intros Ha Hb Hc. unfold band3_op. cbv zeta. apply comp_adjoint.
+    - cbn [along comp dom ran band_op]. ring.
+    - apply along_adjoint, band_adjoint; assumption.
+    - apply comp_adjoint.
+      + cbn [along dom ran band_op]. ring.
+      + apply along_adjoint, band_adjoint; assumption.
+      + apply along_adjoint, band_adjoint; assumption.
+  Qed.
+
+  Lemma dwt3_adjoint L n1 n2 n3 (flo fhi glo ghi : vec) :
+    filters_match L flo glo -> filters_match L fhi ghi -> adjoint_pair (dwt3 L n1 n2 n3 flo fhi glo ghi).
+  Proof.
+    intros Hlo Hhi. unfold dwt3. cbv zeta.
+    repeat (apply vstack_adjoint; [reflexivity|apply band3_adjoint; assumption|]). apply band3_adjoint; assumption.
+  Qed.
+
+  Lemma wavedec3_dom level L n1 n2 n3 (flo fhi glo ghi : vec) :
+    dom (wavedec3_op level L n1 n2 n3 flo fhi glo ghi) = ((n1 * n2) * (n3 * 1))%nat.
+  Proof. destruct level; reflexivity. Qed.
+
+  Theorem wavedec3_adjoint level : forall L n1 n2 n3 (flo fhi glo ghi : vec),
+    filters_match L flo glo -> filters_match L fhi ghi -> adjoint_pair (wavedec3_op level L n1 n2 n3 flo fhi glo ghi).
+  Proof.
+    induction level as [|l IH]; intros L n1 n2 n3 flo fhi glo ghi Hlo Hhi; cbn [wavedec3_op].
+    - apply idop_adjoint.
+    - cbv zeta. apply comp_adjoint.
+      + cbn [bdiag dom idop]. rewrite wavedec3_dom. unfold dwt3, band3_op. cbn [vstack comp along ran dom band_op]. ring.
+      + apply bdiag_adjoint; [apply IH; assumption|apply idop_adjoint].
+      + apply dwt3_adjoint; assumption.
+  Qed.
 End WaveletProofs.
 
 (* the boolean test the harness evaluates on pywt's filter banks implies the hypothesis of the theorems *)
